@@ -356,4 +356,21 @@ package main
 // ---- calls by name (C02): bytecode is entered into the table of compiled routes only when every function it calls by name
 // ---- is one the VM provides (the compiler has just compiled this route: its record of called names is this route's)
 //@ func setupRoutes
-//@   assertat "compiledByRoute[route] = bytecode" forall(n, string, c.calls != nil && has(c.calls, n) ==> vmHas(n))
+//@   assertat "compiledByRoute[route] = bytecode" forall(n, string, c.calls != nil && has(c.calls, n) ==> vmHas(n) || !(interpHas(n) || userFn(module, n)))
+// (a name neither engine knows fails in both modes alike; the interpreter can run its own built-ins and the module's functions)
+//@ spec func interpHas(name string) bool
+//@ spec func userFn(m *ast.Module, name string) bool = exists(j, 0, len(m.Items), typeis(m.Items[j], *ast.Function) && m.Items[j].(*ast.Function) != nil && m.Items[j].(*ast.Function).Name == name)
+//@ func interpreter.HasBuiltin
+//@   trusted
+//@   pure
+//@   ensures result == interpHas(name)
+//@ func moduleDefinesFunction
+//@   requires module != nil
+//@   modifies nothing
+//@   ensures result == userFn(module, name)
+//@   loop 1 invariant 0 <= rangeidx && forall(j, 0, rangeidx, !(typeis(module.Items[j], *ast.Function) && module.Items[j].(*ast.Function) != nil && module.Items[j].(*ast.Function).Name == name))
+//@ func interpreterOnlyCalls
+//@   requires module != nil
+//@   modifies nothing
+//@   ensures len(result) == 0 ==> forall(i, 0, len(unavailable), !(interpHas(unavailable[i]) || userFn(module, unavailable[i])))
+//@   loop 1 invariant 0 <= rangeidx && (len(names) == 0 ==> forall(i, 0, rangeidx, !(interpHas(unavailable[i]) || userFn(module, unavailable[i])))) && (cap(names) == 0 || fresh(names))
